@@ -25,7 +25,7 @@ BATCH = {"quick": 3, "thorough": 10}
 BUDGET = {"quick": 150, "thorough": 1500}
 MIN_NONTRIVIAL = {"quick": 10, "thorough": 30}
 N = {"quick": 48, "thorough": 1500}
-CROSS_EVERY = {"quick": 6, "thorough": 8}
+CROSS_EVERY = {"quick": 5, "thorough": 7}  # coprime with 3: every estimator gets cross-process runs
 CASE_TIMEOUT = 900
 
 
@@ -44,6 +44,12 @@ def build(spec):
         call["model_parameters"]["agg_model_hard_threshold"] = bool(i % 2)
         call["model_parameters"]["T"] = [10, 5000, 200][i % 3]
         call["model_parameters"]["national_summary_correlation"] = bool((i // 2) % 2)
+    if call["pi_method"] == "bootstrap" and (i // 3) % 2 == 0 and "strata" not in call["model_parameters"]:
+        # rarely used option: stratify the residual bootstrap by two columns (a derived one the baseline file carries)
+        med = float(el.pre.baseline_turnout.median())
+        el.pre["size_class"] = ["big" if v > med else "small" for v in el.pre.baseline_turnout]
+        call["model_parameters"]["strata"] = [["county_classification", "size_class"],
+                                              ["size_class", "county_classification"]][(i // 6) % 2]
     if call["pi_method"] == "bootstrap" and "postal_code" not in call["aggregates"]:
         call["aggregates"].insert(0, "postal_code")
     if call["pi_method"] == "bootstrap" and el.district and "district" not in call["aggregates"]:
@@ -185,7 +191,7 @@ def run_case(spec, inputs=None):
     # cross process, other hash seeds
     if spec.get("cross"):
         m = gen.materialise(el, feed, call)
-        for hs in ("1", "12345"):
+        for hs in ("1", "2", "12345"):
             e = dict(os.environ)
             e.update(PYTHONHASHSEED=hs, PYTHONPATH=core.VERIF_DIR)
             p = subprocess.run([sys.executable, "-m", "vlib.checks.c12", "child"], input=json.dumps(m).encode(),
